@@ -61,7 +61,10 @@ def run_case(case):
         w = p.block.add_implied_levels(e)
         seqs.append({k: v for k, v in w.items() if isinstance(k, str) and k in p.user})
     got = D.seq_counter(seqs)
-    viol = compare(p, want, got, "RandomGen")
+    exhausted = len(seqs) < total + 25
+    if not exhausted:
+        counters["returned_as_many_as_requested"] = 1
+    viol = compare(p, want, got, "RandomGen", exhausted)
     counters["compared"] = 1
     counters["compared_empty" if not want else "compared_nonempty"] = 1
     counters["sequences_compared"] = total
